@@ -5,7 +5,7 @@ from regcommon import *
 
 META = dict(
     engine='RegTable.tla',
-    technique='TLA+ spec RegTable.tla (block read = projection of the flat word space, first unmapped address; iteration = ascending list of registers overlapping the range cut at the first non-zero callback result); register_block_read / register_foreach_in are driven over a seeded small-scope table family x every window position x callback scripts, and TLC validates every recorded call with RegTableTrace.tla',
+    technique='TLA+ spec RegTable.tla / RegTableMC.tla (TLC graph of four tables with every block read and iteration range from every state, all edges replayed; block read = projection of the flat word space, first unmapped address; iteration = ascending list of registers overlapping the range cut at the first non-zero callback result); register_block_read / register_foreach_in are driven over a seeded small-scope table family x every window position x callback scripts, and TLC validates every recorded call with RegTableTrace.tla',
     level='For each table of the generated family (areas readable and write-only, gaps and holes, multi-word registers) every block read (address in the window +-1, length 0..9, exact-size destination under ASan) and every iteration range (address, length) with callback scripts (all zero; +1 or -1 at call k for every k) is executed after a few block writes made the content non-trivial; TLC validates each recorded call: success iff all addresses mapped, the words in order with zero for non-readable areas, first unmapped address otherwise; the sequence of handles the callback saw, the result and the failure address.',
     note='Trusted: TLC, harness/regtab.c, ASan for writes outside the destination. Address arithmetic near 2^32 is not exercised.',
 )
@@ -41,6 +41,10 @@ def run(tier):
     v = vf.Verdict('C03', tier)
     vf.build()
     quick = tier != 'thorough'
+    # E0/E1: from every state of the bounded-depth graph of RegTableMC.tla (four tables, after one checked operation)
+    # every block read (n 0..4) and every iteration range with six callback scripts; every edge replayed
+    vf.graph_flow(v, 'RegTableMC.tla', 'RegTableMC3.cfg', 'regtab', 'rtmc3', depth=3, budget=20000 if quick else 600000,
+                  walks=100, walklen=2, nontrivial=lambda u, evl, post: evl.startswith(('bread', 'foreach')), heap='16g')
     rnd = random.Random(vf.seed())
     ss = list(scripts(rnd, 36 if quick else 200, [U16, U32, U64, F32, S16] if quick else list(range(8))))
     vf.trace_flow(v, 'RegTableTrace.tla', 'RegTableTrace.cfg', 'regtab', ss, 'br')
